@@ -7,6 +7,7 @@
 package main
 
 import (
+	"bytes"
 	"encoding/json"
 	"fmt"
 	"go/ast"
@@ -15,6 +16,7 @@ import (
 	"go/token"
 	"os"
 	"path/filepath"
+	"sort"
 	"strings"
 )
 
@@ -36,7 +38,18 @@ func main() {
 		}
 	}
 	n := 0
+	{
+		// the package the inserted scheduling points call (always present: cmd/vsched links the harness that sets its hook)
+		src := "// Package vyield exists only in verification builds (go build -overlay).\npackage vyield\n\n// Hook is called before every statement of the instrumented packages when it is set.\nvar Hook func()\n\n// Y is the inserted call.\nfunc Y() {\n\tif h := Hook; h != nil {\n\t\th()\n\t}\n}\n"
+		yc := filepath.Join(out, "vyield.go")
+		die(os.WriteFile(yc, []byte(src), 0644))
+		repl[filepath.Join(repo, "verifshim", "vyield", "vyield.go")] = yc
+	}
 	for _, pkg := range os.Args[4:] {
+		// "yield:<pkg>": additionally, a scheduling point is inserted before EVERY statement of the package
+		// (textually, at the statement's start offset, so that nothing else of the file changes)
+		yield := strings.HasPrefix(pkg, "yield:")
+		pkg = strings.TrimPrefix(pkg, "yield:")
 		dir := filepath.Join(repo, pkg)
 		ents, err := os.ReadDir(dir)
 		die(err)
@@ -58,14 +71,23 @@ func main() {
 					changed = true
 				}
 			}
-			if !changed {
+			if !changed && !yield {
 				continue
 			}
 			dst := filepath.Join(out, strings.ReplaceAll(pkg, "/", "_")+"_"+e.Name())
-			w, err := os.Create(dst)
-			die(err)
-			die(format.Node(w, fset, f))
-			w.Close()
+			var buf bytes.Buffer
+			if changed {
+				die(format.Node(&buf, fset, f))
+			} else {
+				b, err := os.ReadFile(path)
+				die(err)
+				buf.Write(b)
+			}
+			src := buf.Bytes()
+			if yield {
+				src = insertYields(src)
+			}
+			die(os.WriteFile(dst, src, 0644))
 			repl[path] = dst
 			n++
 		}
@@ -73,6 +95,54 @@ func main() {
 	j, _ := json.MarshalIndent(map[string]interface{}{"Replace": repl}, "", " ")
 	die(os.WriteFile(filepath.Join(out, "overlay.json"), j, 0644))
 	fmt.Fprintf(os.Stderr, "mkoverlay: %d files rewritten\n", n)
+}
+
+// insertYields puts "vyield.Y(); " in front of every statement of every block, case and select clause.
+func insertYields(src []byte) []byte {
+	fset := token.NewFileSet()
+	f, err := parser.ParseFile(fset, "x.go", src, parser.ParseComments)
+	die(err)
+	var offs []int
+	add := func(list []ast.Stmt) {
+		for _, st := range list {
+			switch st.(type) {
+			case *ast.CaseClause, *ast.CommClause:
+				continue // the "statements" of a switch / select body are its clauses
+			}
+			offs = append(offs, fset.Position(st.Pos()).Offset)
+		}
+	}
+	ast.Inspect(f, func(n ast.Node) bool {
+		switch x := n.(type) {
+		case *ast.BlockStmt:
+			add(x.List)
+		case *ast.CaseClause:
+			add(x.Body)
+		case *ast.CommClause:
+			add(x.Body)
+		}
+		return true
+	})
+	if len(offs) == 0 {
+		return src
+	}
+	sort.Ints(offs)
+	var out bytes.Buffer
+	last := 0
+	for _, o := range offs {
+		out.Write(src[last:o])
+		out.WriteString("vyield.Y(); ")
+		last = o
+	}
+	out.Write(src[last:])
+	res := out.Bytes()
+	// the import goes right after the package clause (a separate import declaration)
+	end := fset.Position(f.Name.End()).Offset
+	var withImp bytes.Buffer
+	withImp.Write(res[:end])
+	withImp.WriteString("; import vyield \"github.com/brutella/hc/verifshim/vyield\"")
+	withImp.Write(res[end:])
+	return withImp.Bytes()
 }
 
 func die(err error) {
